@@ -836,10 +836,13 @@ class Model:
         if path == 'itertools.chain.from_iterable' and len(args) == 1 and not isinstance(args[0], Opaque):
             return GenResult(x for part in interp.iterate(args[0], node) for x in interp.iterate(part, node))
         if path == 'itertools.chain' and not any(isinstance(a, Opaque) for a in args):
-            return [x for a in args for x in interp.iterate(a, node)]
+            return GenResult(x for a in args for x in interp.iterate(a, node))
+        if path == 'itertools.product' and not kwargs and not any(isinstance(a, Opaque | SVar) for a in args):
+            import itertools
+            return GenResult(itertools.product(*[interp.iterate(a, node) for a in args]))
         if path == 'itertools.islice' and len(args) >= 2 and all(isinstance(a, int) or a is None for a in args[1:]):
             import itertools
-            return list(itertools.islice(interp.iterate(args[0], node), *args[1:]))
+            return GenResult(itertools.islice(interp.iterate(args[0], node), *args[1:]))
         if path.startswith('typing.') or path.startswith('dataclasses.'):
             return Opaque(path)
         # unknown external callee: arguments escape
@@ -1375,7 +1378,7 @@ class Model:
             strict = kwargs.pop('strict', False)
             if strict and len({len(a) for a in args}) > 1:
                 raise RaiseSignal('ValueError', node, interp.where(node))
-            return list(zip(*args, strict=False))
+            return GenResult(zip(*args, strict=False))
         if name in ('enumerate', 'list', 'tuple', 'set', 'frozenset', 'reversed'):
             if args:
                 args = [interp.iterate(args[0], node), *args[1:]]
@@ -1383,7 +1386,7 @@ class Model:
                 r = fn(*args, **kwargs)
             except TypeError:
                 return Opaque(f'{name} of unhashable')
-            return list(r) if name in ('enumerate', 'reversed') else r
+            return GenResult(r) if name in ('enumerate', 'reversed') else r
         if name == 'dict':
             if args and isinstance(args[0], dict | _MappingProxy):
                 return {**args[0], **kwargs}
@@ -1420,8 +1423,8 @@ class Model:
             f = args[0]
             seq = interp.iterate(args[1], node)
             if name == 'map':
-                return [interp.call(f, [x], {}, node) for x in seq]
-            return [x for x in seq if interp.truth(interp.call(f, [x], {}, node), node)]
+                return GenResult(interp.call(f, [x], {}, node) for x in seq)
+            return GenResult(x for x in seq if interp.truth(interp.call(f, [x], {}, node), node))
         try:
             return fn(*args, **kwargs)
         except (ValueError, TypeError) as ex:
